@@ -11,6 +11,9 @@ ID="$1"; TARGET="$2"; RUNS="${3:-200000}"; JOBS="${4:-8}"
 SEED="${VERIF_SEED:-1}"; [ "$SEED" = "0" ] && SEED=1
 export FBV_ROOT="$ROOT" CARGO_NET_OFFLINE=true FBV_FUZZ_PROP="$ID"
 export RUSTFLAGS="--cfg fuse_backend_rs_verif"
+# ASan keeps its detection (overflow, use-after-free, double free) but not the per-allocation stack
+# unwinding and the 256 MB quarantine, which cost ~10x on history-shaped cases; leaks are not a verdict
+export ASAN_OPTIONS="quarantine_size_mb=16:malloc_context_size=0:detect_leaks=0:${ASAN_OPTIONS:-}"
 BIN="$ROOT/fuzz/fuzz/target/x86_64-unknown-linux-gnu/release/$TARGET"
 LOG="$(mktemp /var/tmp/fbv-fuzzbuild-XXXXXX.log)"
 if ! (cd "$ROOT/fuzz" && flock "$ROOT/fuzz/.build.lock" cargo +nightly fuzz build "$TARGET" >"$LOG" 2>&1); then
@@ -35,7 +38,7 @@ for j in $(seq 1 "$JOBS"); do
     # byte targets: odd jobs start from the committed seeds, even jobs from an empty corpus
     cp "$ROOT/fuzz/seeds/$TARGET"/* "$WORK/c$j/" 2>/dev/null
   fi
-  "$BIN" "$WORK/c$j" -runs="$RUNS" -seed=$((SEED * 100 + j)) -len_control=0 -max_len=$MAXLEN -timeout=120 -rss_limit_mb=4096 \
+  "$BIN" "$WORK/c$j" -runs="$RUNS" -seed=$((SEED * 100 + j)) -len_control=0 -max_len=$MAXLEN -timeout=120 -rss_limit_mb=4096 -detect_leaks=0 \
      -artifact_prefix="$WORK/a$j/" -print_final_stats=1 >"$WORK/log$j" 2>&1 &
   pids+=($!)
 done
